@@ -6,6 +6,13 @@ Streams (each generated mesh yields several cases; one case = one observable)
   C15.cconn   cell connectivity (cell followed by the cells it touches)        (model + oracle)
   C15.bounds  cell bounds gathered from the node coordinates                   (model + oracle)
   C15.norm    DomainTopology/CellConnectivity.normalise (+ second normalise)   (model + oracle)
+  C15.read    a whole dataset (1-3 mesh topology variables, some sharing their connectivity variables,
+              each connectivity variable stored in its own order with its own start index, several data
+              variables per mesh and location, location index sets, data variables before or after the
+              mesh variable): the construct that ONE data variable receives, optionally after
+              Field.__getitem__ on the cell axis and after normalise                (model + oracle)
+  C15.share   fields of one dataset against each other: equal constructs for the same mesh and location,
+              independent copies, mesh identifiers, subspaced field data            (oracle only)
 
 `via` in the payload says how the real code is driven:
   file     a netCDF UGRID file hand-written with netCDF4 → cfdm.read → construct.array
@@ -18,6 +25,7 @@ never calls cfdm; the protocol line carries the *stored* arrays (start index
 added, padded, possibly transposed) exactly as they are written to the file.
 """
 import atexit
+import copy
 import json
 import os
 import shutil
@@ -34,8 +42,24 @@ REQUIRED = [
     "C15_point_neighbours_symm",
     "C15_zero_based",
     "C15_padding_masked",
-    "C15_cells_zero_based_partial",
+    "C15_cells_zero_based",
     "C15_cells_start_index_counterexample",
+    "C15_old_code_counterexample_padded_edges",
+    "C15_normalise_meaning",
+    "C15_normalise_label_invariant",
+    "C15_subspace_normalise",
+    "C15_cell_dimension_per_variable",
+    "C15_read_storage_independent",
+    "C15_cell_dimension_cache_counterexample",
+    "C15_mesh_ncdim",
+    "C15_old_code_counterexample_shared_connectivity",
+    "C15_other_meshes_irrelevant",
+    "C15_subspace_rows",
+    "C15_subspace_compose",
+    "C15_subspace_bounds_partial",
+    "C15_subspace_bounds_reversed_counterexample",
+    "C15_location_index_set",
+    "C15_old_code_counterexample_location_index_set",
     "C15_transposed_storage",
     "C15_cell_connectivity",
     "C15_bounds_gather",
@@ -47,24 +71,32 @@ REQUIRED = [
     "C15_old_code_counterexample_unreferenced",
     "C15_old_code_counterexample_padded",
 ]
-BUDGET = {"quick": 900, "thorough": 30000}  # meshes; each yields ~10 cases
+BUDGET = {"quick": 880, "thorough": 30000}  # items: 3 of 4 are single meshes (~12 cases each), 1 of 4 a whole dataset (~12 cases)
 QUICK_JOBS = 4
 TIME_LIMIT = {"quick": 150, "thorough": 1200}
 RULE = (
     "random small UGRID meshes: 3-12 nodes; 2-d meshes of 1-6 faces (triangles/quads/polygons up to 6 nodes, padded rows, "
-    "open meshes with boundary edges, closed consistently-oriented surfaces), 1-d edge networks, unreferenced (isolated) nodes; "
-    "start_index 0/1 per connectivity variable (attribute present or absent); storage (cell,node) or (node,cell); optional "
-    "edge_node/face_face/face_edge/edge_face connectivity and face/edge coordinates; location node/edge/face; driven through "
-    "netCDF files (field and domain read) and through the array classes; normalise on read results and on random id arrays "
-    "(contiguous, one-based, subspaced, dangling ids). non-trivial = the connectivity has >= 2 rows; distinct = distinct "
-    "(stream, protocol line, via)"
+    "open meshes with boundary edges, closed consistently-oriented surfaces), 1-d edge networks, unreferenced (isolated) nodes, "
+    "an edge with a missing node; start_index 0/1 per connectivity variable (attribute present or absent); storage (cell,node) "
+    "or (node,cell) per variable; optional edge_node/face_face/face_edge/edge_face connectivity and face/edge coordinates; "
+    "location node/edge/face; driven through netCDF files (field and domain read) and through the array classes; normalise on "
+    "read results and on random id arrays (contiguous, one-based, subspaced, dangling, negative ids). Every fourth item is a whole "
+    "dataset: 1-3 mesh topology variables (later ones may share the connectivity variables of an earlier one), 1-2 data variables "
+    "per mesh and location, 0-2 location index sets (own start_index, any order of indices), data variables on a location index "
+    "set before or after the mesh variable; per chosen data variable: topology / cell connectivity / bounds, then "
+    "Field.__getitem__ on the cell axis (slices with any step, lists, negative positions) and normalise(start_index 0/1). Inputs "
+    "that end in an OPEN known finding are generated with a reduced share (finding_open). non-trivial = the connectivity (or the "
+    "selected cell axis) has >= 2 rows; distinct = distinct (stream, protocol line, via, data variable)"
 )
 ASSUMPTIONS = [
     "node coordinates are small integers stored as float64 (exactly representable); float behaviour is not modelled",
     "normalise is modelled with remove_empty_columns=False; remove_empty_columns=True is checked for idempotence by the oracle only",
-    "the order of a point cell's neighbours after the node itself is not part of the property: compared sorted",
-    "volume cells, location index sets and meshes whose connectivity fails cfdm's own compliance checks are outside the stream",
-    "ids in the first column of a point/cell-connectivity array are unmasked and distinct (hypothesis of C15_normalise_idem)",
+    "the order of a point cell's neighbours (a cell connectivity's touched cells) after the cell itself is not part of the property: compared sorted",
+    "volume cells and meshes whose connectivity fails cfdm's own compliance checks are outside the streams",
+    "ids in the first column of a point/cell-connectivity array are unmasked and distinct (hypothesis of C15_normalise_idem / _meaning)",
+    "Field.__getitem__: the index is turned into positions by Python's own slice/list semantics in the harness (index parsing is C03's subject); "
+    "the model receives the positions and, for the bounds rule, the slice step",
+    "location index sets hold distinct in-range indices",
 ]
 
 _cfdm = None
@@ -208,6 +240,12 @@ def gen_mesh(rng):
         m["extra_conn"] = False
         m["face_coords"] = False
     m["edge_coords"] = m.get("edges") is not None and rng.random() < 0.3
+    m["padded_edge"] = False
+    if m.get("edges") is not None and len(m["edges"]) >= 2 and not m["extra_conn"] and rng.random() < 0.05:
+        # an edge with a missing (masked) end node: the row is padded like a short face
+        k = rng.randrange(len(m["edges"]))
+        m["edges"][k] = m["edges"][k][:1]
+        m["padded_edge"] = True
     # storage
     si_common = rng.choice([0, 0, 1, 1, None])
     for k in ("f", "e", "ff"):
@@ -438,17 +476,21 @@ def mk_point(p):
         tags.append("point:unreferenced-node")
     if src == "faces" and _boundary(rows):
         tags.append("point:boundary-edge")
+    if src == "edges" and m.get("padded_edge"):
+        tags.append("point:padded-edge")
     return Case("C15.point", p, line, key=line + p["via"], nontrivial=len(rows) >= 2, tags=tags)
 
 
 def mk_cells(p):
     m = p["mesh"]
     w = "f" if p["loc"] == "face" else "e"
-    line = f"C15.cells cd={m[w + 'cd']} conn={enc(stored(m, w))}"
+    line = f"C15.cells si={m[w + 'si']} cd={m[w + 'cd']} conn={enc(stored(m, w))}"
     rows = m["faces"] if w == "f" else m["edges"]
     tags = [f"cells:{p['loc']}", f"cells:si={m[w + 'si']}", f"cd={m[w + 'cd']}", "via:" + p["via"]]
     if len({len(r) for r in rows}) > 1:
         tags.append("cells:padded")
+    if w == "e" and m.get("padded_edge"):
+        tags.append("cells:padded-edge")
     return Case("C15.cells", p, line, key=line + p["via"] + str(m[w + "si"]), nontrivial=len(rows) >= 2, tags=tags)
 
 
@@ -477,7 +519,7 @@ def mk_norm(p):
 
 def from_payload(stream, payload):
     return {"C15.point": mk_point, "C15.cells": mk_cells, "C15.cconn": mk_cconn,
-            "C15.bounds": mk_bounds, "C15.norm": mk_norm}[stream](payload)
+            "C15.bounds": mk_bounds, "C15.norm": mk_norm, "C15.read": mk_read, "C15.share": mk_share}[stream](payload)
 
 
 def gen_norm_random(rng):
@@ -495,7 +537,7 @@ def gen_norm_random(rng):
             data[0] = rng.sample(pool, w) if len(pool) >= w else data[0]
         return dict(cell=cell, start_index=si, data=data, pattern="nodes")
     n = rng.randint(1, 6)
-    pattern = rng.choice(["zero", "one", "subspaced", "offset", "shuffled"])
+    pattern = rng.choice(["zero", "one", "subspaced", "offset", "shuffled", "negative"])
     if pattern == "zero":
         ids = list(range(n))
     elif pattern == "one":
@@ -505,10 +547,18 @@ def gen_norm_random(rng):
         ids = list(range(o, o + n))
     elif pattern == "subspaced":
         ids = sorted(rng.sample(range(0, 30), n))
+    elif pattern == "negative":
+        # identifiers below zero: `_normalise_cell_ids` first shifts everything by the minimum
+        ids = rng.sample(range(-12, 12), n)
+        if min(ids) >= 0:
+            ids[rng.randrange(n)] = -rng.randint(1, 12)
+            ids = list(dict.fromkeys(ids))
+            n = len(ids)
     else:
         ids = rng.sample(range(0, 30), n)
     w = rng.randint(1, 4)
-    dangling = [v for v in range(0, 32) if v not in ids]
+    lo = -14 if pattern == "negative" else 0
+    dangling = [v for v in range(lo, 32) if v not in ids]
     data = []
     for i in ids:
         k = rng.randint(0, w)
@@ -528,7 +578,12 @@ def gen_norm_random(rng):
 
 
 def gen(rng, tier, n):
-    for _ in range(n):
+    for it in range(n):
+        if it % 4 == 3:
+            # every fourth item is a whole dataset (streams C15.read / C15.share)
+            ds = gen_dataset(rng)
+            yield from gen_dataset_cases(rng, ds)
+            continue
         m = gen_mesh(rng)
         vias = ["file"] + (["domain"] if rng.random() < 0.3 else [])
         for via in vias:
@@ -571,10 +626,11 @@ def spec_point_rows(m, src, n):
                 nb[a].add(b)
                 nb[b].add(a)
     else:
-        for a, b in m["edges"]:
-            if a != b:
-                nb[a].add(b)
-                nb[b].add(a)
+        for e in m["edges"]:
+            for a in e:
+                for b in e:
+                    if a != b:
+                        nb[a].add(b)
     w = 1 + max([len(s) for s in nb.values()] + [0])
     return [[k] + sorted(nb[k]) + [None] * (w - 1 - len(nb[k])) for k in range(n)]
 
@@ -666,6 +722,10 @@ def impl(c):
             c.extra["idem_rec"] = "raised:" + fw.exc_enum(e)
         return canon(a1)
 
+    if c.stream == "C15.read":
+        return impl_read(c)
+    if c.stream == "C15.share":
+        return impl_share(c)
     m = p["mesh"]
     via = p["via"]
     if via in ("file", "domain"):
@@ -741,7 +801,141 @@ def impl(c):
     raise fw.HarnessError(f"unknown stream/via {c.stream}/{via}")
 
 
+def _construct_of(f, p, loc):
+    what = p["what"]
+    if what == "topo":
+        return f.domain_topology(default=None)
+    if what == "cconn":
+        ccs = f.cell_connectivities(todict=True)
+        if len(ccs) > 1:
+            raise fw.HarnessError("more than one cell connectivity construct")
+        return list(ccs.values())[0] if ccs else None
+    std = "longitude" if p.get("coord") == "x" else "latitude"
+    aux = f.auxiliary_coordinate(std, default=None)
+    if aux is None or not aux.has_bounds():
+        return None
+    return aux.bounds
+
+
+def impl_read(c):
+    p = c.payload
+    ds = p["ds"]
+    j, loc, sel, name, l = target_info(ds, p["target"])
+    m = ds["meshes"][j]
+    got = read_dataset(ds, p["via"] == "domain")
+    if "error" in got:
+        c.extra["tb"] = got.get("tb")
+        return got["error"]
+    if got.get("dup"):
+        return "duplicate-constructs"
+    if p["via"] == "domain":
+        cell = {"node": "point", "edge": "edge", "face": "face"}[loc]
+        f = got.get((f"lis{p['target']['lis']}" if l is not None else "Mesh" + m["sfx"], cell))
+        if f is None and l is not None:
+            f = got.get((f"lis{p['target']['lis']}", None))
+    else:
+        f = got.get(name)
+    if f is None:
+        return "missing-field"
+    try:
+        if p.get("index") is not None:
+            f = f[py_index(p["index"])]
+        con = _construct_of(f, p, loc)
+        if p["via"] != "domain":
+            c.extra["data"] = [float(v) for v in f.data.array.tolist()]
+            c.extra["mesh_id"] = f.has_mesh_id()
+        axes = f.domain_axes(todict=True)
+        c.extra["axis_sizes"] = sorted(a.get_size() for a in axes.values())
+        if con is None:
+            return "none"
+        if p["what"] == "topo":
+            c.extra["cell"] = con.get_cell(None)
+        if p["what"] == "cconn":
+            c.extra["connectivity"] = con.get_connectivity(None)
+        c.extra["before_norm"] = canon(con.array, sort_tail=(p["what"] == "topo" and loc == "node"))
+        if p.get("norm") is not None:
+            n1 = con.normalise(start_index=p["norm"])
+            a1 = n1.array
+            c.extra["idem"] = _same(n1.normalise(start_index=p["norm"]).array, a1)
+            return canon(a1)
+        return c.extra["before_norm"]
+    except fw.HarnessError:
+        raise
+    except Exception as e:
+        import traceback
+        c.extra["tb"] = traceback.format_exc()[-800:]
+        return "raised:" + fw.exc_enum(e)
+
+
+def _all_constructs(f):
+    out = {}
+    dt = f.domain_topology(default=None)
+    out["topo"] = None if dt is None else canon(dt.array, sort_tail=dt.get_cell(None) == "point")
+    ccs = f.cell_connectivities(todict=True)
+    out["cconn"] = sorted(canon(x.array) for x in ccs.values())
+    out["bounds"] = sorted(canon(a.bounds.array) for a in f.auxiliary_coordinates(todict=True).values() if a.has_bounds())
+    return out
+
+
+def impl_share(c):
+    """Facts about two fields of one dataset (compared with what they must be by the oracle)."""
+    p = c.payload
+    C = cfdm()
+    got = read_dataset(p["ds"], False)
+    if "error" in got:
+        return got["error"]
+    fa, fb = got.get(p["a"]), got.get(p["b"])
+    if fa is None or fb is None:
+        return "missing-field"
+    facts = {}
+    try:
+        ida, idb = fa.get_mesh_id(None), fb.get_mesh_id(None)
+        facts["ids_set"] = ida is not None and idb is not None
+        facts["same_id"] = ida == idb
+        if p["kind"] == "same-mesh-same-location":
+            facts["equal_constructs"] = _all_constructs(fa) == _all_constructs(fb)
+            facts["equals"] = bool(fa.domain.equals(fb.domain))
+            # independent copies: changing the constructs of a copy of one field leaves the other alone
+            before = _all_constructs(fb)
+            g = fa.copy()
+            dt = g.domain_topology()
+            dt.set_data(C.Data(dt.array + 5))
+            for cc in g.cell_connectivities(todict=True).values():
+                cc.set_data(C.Data(cc.array + 5))
+            dt2 = fa.domain_topology()
+            dt2.set_data(C.Data(dt2.array + 7))
+            facts["independent"] = _all_constructs(fb) == before
+            # restore (the read result is cached for the other cases of this dataset)
+            dt2.set_data(C.Data(dt2.array - 7))
+        n = fa.data.size
+        sub = fa[[n - 1]]
+        facts["sub_has_mesh_id"] = sub.has_mesh_id()
+        facts["sub_data"] = [float(v) for v in sub.data.array.tolist()] == [float(n - 1)]
+    except Exception as e:
+        import traceback
+        c.extra["tb"] = traceback.format_exc()[-800:]
+        return "raised:" + fw.exc_enum(e)
+    return json.dumps(facts, sort_keys=True)
+
+
+def _sorted_tails(s):
+    rows = rows_of(s)
+    if rows is None:
+        return s
+    out = []
+    for r in rows:
+        t = sorted(v for v in r[1:] if v is not None)
+        out.append(r[:1] + t + [None] * (len(r) - 1 - len(t)))
+    return "rows=" + enc(out)
+
+
 def agree(c):
+    if c.stream == "C15.read":
+        p = c.payload
+        loc = target_info(p["ds"], p["target"])[1]
+        if (p["what"] == "topo" and loc == "node") or p["what"] == "cconn":
+            # the order of the connected cells after the cell itself is not part of the property
+            return _sorted_tails(c.impl_out) == _sorted_tails(c.model_out)
     return c.impl_out == c.model_out
 
 
@@ -776,6 +970,10 @@ def oracle(c):
                     return f"row {k}: padding is not at the end: {g}"
         return None
 
+    if c.stream == "C15.read":
+        return oracle_read(c)
+    if c.stream == "C15.share":
+        return oracle_share(c)
     m = p["mesh"]
     if c.stream == "C15.point":
         src = p.get("src") or point_src(m)
@@ -828,6 +1026,55 @@ def oracle(c):
     return None
 
 
+def oracle_read(c):
+    p = c.payload
+    ds = p["ds"]
+    cell, rows, pos = want_rows(ds, p)
+    j, loc, sel, name, l = target_info(ds, p["target"])
+    fails = []
+    if rows is None:
+        return None if c.impl_out == "none" else f"no such construct expected, got {c.impl_out}"
+    ex = c.extra or {}
+    before = "rows=" + enc(rows)
+    if p.get("norm") is None:
+        if c.impl_out != before:
+            fails.append(f"expected {before} got {c.impl_out}")
+    else:
+        if ex.get("before_norm") != before:
+            fails.append(f"before normalise: expected {before} got {ex.get('before_norm')}")
+        got = rows_of(c.impl_out)
+        if got is None:
+            fails.append(f"normalise did not return an array: {c.impl_out}")
+        else:
+            nf = check_norm(cell, p["norm"], rows, got)
+            if nf:
+                fails.append("normalise(start_index=%d): %s" % (p["norm"], nf))
+            if ex.get("idem") is not True:
+                fails.append(f"second normalisation changed the value ({ex.get('idem')})")
+    if rows_of(c.impl_out) is not None or c.impl_out == "none":
+        if p["what"] == "topo" and ex.get("cell") != {"point": "point", "edge": "edge", "face": "face"}[cell]:
+            fails.append(f"cell type {ex.get('cell')}")
+        if p["what"] == "cconn" and ex.get("connectivity") != "edge":
+            fails.append(f"connectivity type {ex.get('connectivity')}")
+        if ex.get("axis_sizes") != [len(pos)]:
+            fails.append(f"domain axis sizes {ex.get('axis_sizes')}, expected [{len(pos)}]")
+        if p["via"] != "domain":
+            if ex.get("data") != [float(i) for i in pos]:
+                fails.append(f"field data {ex.get('data')} are not the data of the selected cells {pos}")
+            if ex.get("mesh_id") != (p.get("index") is None):
+                fails.append(f"mesh id present: {ex.get('mesh_id')}")
+    return " | ".join(fails) or None
+
+
+def oracle_share(c):
+    p = c.payload
+    want = dict(ids_set=True, same_id=p["kind"] != "other-mesh", sub_has_mesh_id=False, sub_data=True)
+    if p["kind"] == "same-mesh-same-location":
+        want.update(equal_constructs=True, equals=True, independent=True)
+    exp = json.dumps(want, sort_keys=True)
+    return None if c.impl_out == exp else f"expected {exp} got {c.impl_out}"
+
+
 def _norm_oracle(c, want_rows, cell):
     """Normalising what was read: value as specified, unchanged by a second normalisation."""
     facts = c.extra.get("norm") or {}
@@ -850,6 +1097,482 @@ def _norm_oracle(c, want_rows, cell):
     return None
 
 
+# ====================================================================== datasets (streams C15.read, C15.share)
+LOCS = ("node", "edge", "face")
+
+
+def mesh_cells(m, loc):
+    """Logical rows of the cells of a location (None: the mesh has no such cells)."""
+    if loc == "node":
+        return [[k] for k in range(m["n"])]
+    return m.get("faces") if loc == "face" else m.get("edges")
+
+
+_open_sigs = None
+
+
+def finding_open(sig):
+    """Is this known finding still open?  Inputs that end in an open finding are generated as a small,
+    still present, share; once the finding is fixed they get their full share."""
+    global _open_sigs
+    if _open_sigs is None:
+        _open_sigs = {k["signature"] for k in fw.known_findings() if k["property"] == "C15" and k.get("status") == "open"}
+    return sig in _open_sigs
+
+
+def gen_dataset(rng):
+    """1-3 mesh topology variables in one file; later ones may share the connectivity variables of an
+    earlier one (same logical mesh, own node coordinates); data variables; location index sets."""
+    nm = rng.choices([1, 2, 3], [5, 4, 1])[0]
+    meshes = []
+    for j in range(nm):
+        roots = [i for i, r in enumerate(meshes) if r["shares"] is None]
+        if j > 0 and rng.random() < 0.4:
+            i = rng.choice(roots)
+            m = copy.deepcopy(meshes[i])
+            m["shares"] = i
+            m["x"] = [rng.randint(-90, 90) for _ in range(m["n"])]
+            m["y"] = [rng.randint(-180, 180) for _ in range(m["n"])]
+            m["face_coords"] = False
+            m["edge_coords"] = False
+            m["extra_conn"] = False
+            # the attributes may be written although not needed; they must be when a variable is (other, cell)
+            m["fdim_attr"] = rng.random() < 0.5
+            m["edim_attr"] = rng.random() < 0.5
+        else:
+            m = gen_mesh(rng)
+            m["shares"] = None
+        m["sfx"] = "" if j == 0 else "_" + "bcd"[j - 1]
+        m["nvar"] = {loc: rng.choice([1, 1, 2]) for loc in LOCS}
+        meshes.append(m)
+    lis = []
+    nlis = rng.choice([0, 0, 0, 1, 1, 2])
+    if finding_open("location-index-set-ignored") and rng.random() < 0.7:
+        nlis = 0
+    for _ in range(nlis):
+        j = rng.randrange(nm)
+        m = meshes[j]
+        loc = rng.choice([l for l in LOCS if mesh_cells(m, l) is not None])
+        ncell = len(mesh_cells(m, loc))
+        idx = rng.sample(range(ncell), rng.randint(1, ncell))
+        if rng.random() < 0.5:
+            idx.sort()
+        si = rng.choice([0, 1])
+        lis.append(dict(mesh=j, loc=loc, si=si, si_attr=True if si else rng.random() < 0.5, idx=idx))
+    # where the data variables on location index sets are defined: after the mesh (usual) or before it
+    order = "lis-first" if lis and rng.random() < (0.12 if finding_open("location-index-set-before-mesh-raises-KeyError") else 0.3) else "mesh-first"
+    return dict(meshes=meshes, lis=lis, order=order)
+
+
+def root_of(ds, j):
+    m = ds["meshes"][j]
+    return ds["meshes"][m["shares"]] if m["shares"] is not None else m
+
+
+def write_dataset(ds, path):
+    """The file, hand-written with netCDF4 only."""
+    import netCDF4
+    nc = netCDF4.Dataset(path, "w")
+    nc.Conventions = "CF-1.11"
+    nc.createDimension("Two", 2)
+    later = []  # variable creation thunks, in file order
+
+    def conn_var(name, a, dims, si, si_attr, long_name):
+        v = nc.createVariable(name, "i4", dims, fill_value=-99)
+        v.long_name = long_name
+        if si_attr:
+            v.start_index = np.int32(si)
+        v[...] = np.array([[-99 if x is None else x for x in r] for r in a], dtype="i4")
+
+    def coord_var(name, std, units, dim, vals):
+        v = nc.createVariable(name, "f8", (dim,))
+        v.standard_name = std
+        v.units = units
+        v[...] = np.array(vals, dtype=float)
+
+    def data_var(name, dim, size, attrs):
+        d = nc.createVariable(name, "f8", (dim,))
+        d.standard_name = "air_temperature"
+        d.units = "K"
+        for k, v in attrs.items():
+            setattr(d, k, v)
+        d[...] = np.arange(size, dtype=float)
+
+    # dimensions first
+    for j, m in enumerate(ds["meshes"]):
+        if m["shares"] is not None:
+            continue
+        x = m["sfx"]
+        nc.createDimension("nnode" + x, m["n"])
+        if m.get("faces"):
+            a = stored(m, "f")
+            nc.createDimension("nface" + x, len(m["faces"]))
+            nc.createDimension("fW" + x, len(a) if m["fcd"] == 1 else len(a[0]))
+            if m.get("ff") is not None:
+                a = stored(m, "ff")
+                nc.createDimension("ffW" + x, len(a) if m["ffcd"] == 1 else len(a[0]))
+        if m.get("edges") is not None:
+            nc.createDimension("nedge" + x, len(m["edges"]))
+    for k, l in enumerate(ds["lis"]):
+        nc.createDimension(f"nsub{k}", len(l["idx"]))
+
+    def mesh_vars(j, m):
+        x = m["sfx"]
+        r = root_of(ds, j)
+        rx = r["sfx"]
+        M = nc.createVariable("Mesh" + x, "i4", ())
+        M.cf_role = "mesh_topology"
+        M.topology_dimension = 2 if m.get("faces") else 1
+        M.node_coordinates = f"node_x{x} node_y{x}"
+        coord_var("node_x" + x, "longitude", "degrees_east", "nnode" + rx, m["x"])
+        coord_var("node_y" + x, "latitude", "degrees_north", "nnode" + rx, m["y"])
+        own = m["shares"] is None
+        if m.get("faces"):
+            M.face_node_connectivity = "face_nodes" + rx
+            if own:
+                conn_var("face_nodes" + x, stored(m, "f"), ("fW" + x, "nface" + x) if m["fcd"] == 1 else ("nface" + x, "fW" + x),
+                         m["fsi"], m["fsi_attr"], "Maps every face to its corner nodes")
+            if m["fcd"] == 1 or (m.get("ff") is not None and m["ffcd"] == 1) or m["fdim_attr"]:
+                M.face_dimension = "nface" + rx
+            if m.get("ff") is not None:
+                M.face_face_connectivity = "face_links" + rx
+                if own:
+                    conn_var("face_links" + x, stored(m, "ff"), ("ffW" + x, "nface" + x) if m["ffcd"] == 1 else ("nface" + x, "ffW" + x),
+                             m["ffsi"], m["ffsi_attr"], "neighbour faces for faces")
+            if m.get("face_coords"):
+                M.face_coordinates = f"face_x{x} face_y{x}"
+                coord_var("face_x" + x, "longitude", "degrees_east", "nface" + rx, np.arange(len(m["faces"])) + 0.5)
+                coord_var("face_y" + x, "latitude", "degrees_north", "nface" + rx, np.arange(len(m["faces"])) + 0.25)
+        if m.get("edges") is not None:
+            M.edge_node_connectivity = "edge_nodes" + rx
+            if own:
+                conn_var("edge_nodes" + x, stored(m, "e"), ("Two", "nedge" + x) if m["ecd"] == 1 else ("nedge" + x, "Two"),
+                         m["esi"], m["esi_attr"], "Maps every edge to its two nodes")
+            if m["ecd"] == 1 or m["edim_attr"]:
+                M.edge_dimension = "nedge" + rx
+            if m.get("edge_coords"):
+                M.edge_coordinates = f"edge_x{x} edge_y{x}"
+                coord_var("edge_x" + x, "longitude", "degrees_east", "nedge" + rx, np.arange(len(m["edges"])) + 0.5)
+                coord_var("edge_y" + x, "latitude", "degrees_north", "nedge" + rx, np.arange(len(m["edges"])) + 0.25)
+        for loc in LOCS:
+            cells = mesh_cells(m, loc)
+            if cells is None:
+                continue
+            for k in range(m["nvar"][loc]):
+                data_var(var_name(m, loc, k), "n" + loc + rx, len(cells), dict(mesh="Mesh" + x, location=loc))
+
+    def lis_vars(k, l):
+        m = ds["meshes"][l["mesh"]]
+        data_var(f"ldata{k}", f"nsub{k}", len(l["idx"]), dict(location_index_set=f"lis{k}"))
+        L = nc.createVariable(f"lis{k}", "i4", (f"nsub{k}",))
+        L.cf_role = "location_index_set"
+        L.mesh = "Mesh" + m["sfx"]
+        L.location = l["loc"]
+        if l["si_attr"]:
+            L.start_index = np.int32(l["si"])
+        L[...] = np.array([i + l["si"] for i in l["idx"]], dtype="i4")
+
+    if ds["order"] == "lis-first":
+        for k, l in enumerate(ds["lis"]):
+            lis_vars(k, l)
+    for j, m in enumerate(ds["meshes"]):
+        mesh_vars(j, m)
+    if ds["order"] != "lis-first":
+        for k, l in enumerate(ds["lis"]):
+            lis_vars(k, l)
+    nc.close()
+
+
+def var_name(m, loc, k):
+    return f"{loc[0]}data{m['sfx']}" + ("" if k == 0 else f"_{k + 1}")
+
+
+def read_dataset(ds, domain):
+    """cfdm.read of the file → {netCDF variable name: field} (domains: {(variable name, cell type): domain})."""
+    key = ("ds", json.dumps(ds, sort_keys=True), domain)
+    if key in _read_cache:
+        return _read_cache[key]
+    if len(_read_cache) > 4:
+        _read_cache.clear()
+    _file_counter[0] += 1
+    path = os.path.join(scratch(), f"d_{os.getpid()}_{_file_counter[0]}.nc")
+    write_dataset(ds, path)
+    C = cfdm()
+    out = {}
+    try:
+        import logging
+        lg = logging.getLogger("cfdm")
+        lvl = lg.level
+        lg.setLevel(logging.ERROR)  # the "Ignoring the UGRID mesh" warning of the unpatched code
+        try:
+            fs = C.read(path, domain=domain)
+        finally:
+            lg.setLevel(lvl)
+        for f in fs:
+            name = f.nc_get_variable(None)
+            if domain:
+                dt = f.domain_topology(default=None)
+                name = (name, dt.get_cell(None) if dt is not None else None)
+            if name in out:
+                out["dup"] = True
+            out[name] = f
+    except Exception as e:  # reading a valid UGRID file must not fail
+        import traceback
+        out["error"] = "raised:" + fw.exc_enum(e)
+        out["tb"] = traceback.format_exc()[-600:]
+    _read_cache[key] = out
+    return out
+
+
+def target_info(ds, t):
+    """(mesh index, location, logical positions selected by a location index set or None, variable name)."""
+    if "lis" in t:
+        l = ds["lis"][t["lis"]]
+        return l["mesh"], l["loc"], list(l["idx"]), f"ldata{t['lis']}", l
+    m = ds["meshes"][t["mesh"]]
+    return t["mesh"], t["loc"], None, var_name(m, t["loc"], t["k"]), None
+
+
+def index_positions(index, n):
+    """The positions that a Python/numpy index of a size-n axis selects."""
+    if index is None:
+        return None
+    if index["kind"] == "slice":
+        a, b, c = index["v"]
+        return list(range(n))[slice(a, b, c)]
+    return [i % n for i in index["v"]]
+
+
+def py_index(index):
+    if index["kind"] == "slice":
+        return slice(*index["v"])
+    return list(index["v"])
+
+
+def _reverses(index, pos, bsize):
+    """cfdm's rule (PropertiesDataBounds.__getitem__) for reversing the trailing dimension of 1-d/2-d
+    bounds; used only to name the known finding and to tag cases."""
+    if index is None:
+        return False
+    if index["kind"] == "slice":
+        st = index["v"][2]
+        return bool(st) and st < 0
+    return bsize > 1 and pos[-1] < pos[0]
+
+
+def gen_index(rng, n):
+    """A non-empty selection of a size-n axis."""
+    for _ in range(20):
+        if rng.random() < 0.5:
+            a = rng.choice([None, rng.randint(-n, n)])
+            b = rng.choice([None, rng.randint(-n, n)])
+            c = rng.choice([None, 1, 2, -1, -2, 3])
+            index = dict(kind="slice", v=[a, b, c])
+        else:
+            k = rng.randint(1, n)
+            v = rng.sample(range(n), k)
+            if rng.random() < 0.4:
+                v.sort()
+            v = [i - n if rng.random() < 0.2 else i for i in v]
+            index = dict(kind="list", v=v)
+        if index_positions(index, n):
+            return index
+    return dict(kind="list", v=[0])
+
+
+def conn_kv(pre, m, which, rx):
+    a = stored(m, which)
+    cdim = {"f": "nface", "ff": "nface", "e": "nedge"}[which] + rx
+    odim = {"f": "fW" + rx, "ff": "ffW" + rx, "e": "Two"}[which]
+    cd = m[which + "cd"]
+    dims = f"{odim},{cdim}" if cd == 1 else f"{cdim},{odim}"
+    return f"{pre}.d={dims} {pre}.si={m[which + 'si']} {pre}.a={enc(a)}"
+
+
+def mk_read(p):
+    ds = p["ds"]
+    t = p["target"]
+    j, loc, sel, name, l = target_info(ds, t)
+    m = ds["meshes"][j]
+    r = root_of(ds, j)
+    rx = r["sfx"]
+    what = p["what"]
+    coords = m[p.get("coord") or "x"]
+    fattr = m.get("faces") and (r["fcd"] == 1 or (r.get("ff") is not None and r["ffcd"] == 1) or m["fdim_attr"])
+    eattr = m.get("edges") is not None and (r["ecd"] == 1 or m["edim_attr"])
+    parts = [f"C15.read what={what} loc={loc} nn={m['n']} fdim={'nface' + rx if fattr else '_'} edim={'nedge' + rx if eattr else '_'}",
+             f"coords={fw.fmt_list(coords)}"]
+    if m.get("faces"):
+        parts.append(conn_kv("fn", r, "f", rx))
+        if m.get("ff") is not None:
+            parts.append(conn_kv("ff", r, "ff", rx))
+    if m.get("edges") is not None:
+        parts.append(conn_kv("en", r, "e", rx))
+    if l is not None:
+        parts.append(f"lis.si={l['si']} lis.idx={fw.fmt_list([i + l['si'] for i in l['idx']])}")
+    ncell = len(sel) if sel is not None else len(mesh_cells(m, loc))
+    pos = index_positions(p.get("index"), ncell)
+    if pos is not None:
+        parts.append(f"pos={fw.fmt_list(pos)}")
+        if p["index"]["kind"] == "slice":
+            parts.append(f"step={p['index']['v'][2] or 1}")
+    if p.get("norm") is not None:
+        parts.append(f"norm={p['norm']}")
+    line = " ".join(parts)
+    which = {"topo": {"node": "e" if m.get("edges") is not None else "f", "edge": "e", "face": "f"}[loc], "cconn": "ff", "bounds": "f" if loc == "face" else "e"}[what]
+    tags = [f"read:{what}:{loc}", f"read:si={r[which + 'si']}", f"read:cd={r[which + 'cd']}", "read:via:" + p["via"], f"read:meshes={len(ds['meshes'])}"]
+    if m.get("faces") and m.get("ff") is not None and r["fcd"] != r["ffcd"]:
+        tags.append("read:face-variables-stored-in-different-orders")
+    if m["shares"] is not None:
+        tags.append("read:mesh-shares-connectivity-variables")
+    if t.get("k"):
+        tags.append("read:second-data-variable")
+    if l is not None:
+        tags.append("read:location-index-set")
+        tags.append(f"read:lis-si={l['si']}")
+    if ds["order"] == "lis-first":
+        tags.append("read:data-variable-before-mesh")
+    if pos is not None:
+        tags.append("read:subspace:" + p["index"]["kind"])
+        if what == "bounds" and _reverses(p["index"], pos, 2):
+            tags.append("read:bounds-reversing-index")
+    if p.get("norm") is not None:
+        tags.append("read:normalise")
+    if m.get("padded_edge") or r.get("padded_edge"):
+        tags.append("read:padded-edge")
+    return Case("C15.read", p, line, key=line + p["via"] + name, nontrivial=ncell >= 2, tags=tags)
+
+
+def mk_share(p):
+    ds = p["ds"]
+    tags = ["share:" + p["kind"]]
+    return Case("C15.share", p, None, nontrivial=True, tags=tags)
+
+
+def gen_dataset_cases(rng, ds):
+    targets = []
+    for j, m in enumerate(ds["meshes"]):
+        for loc in LOCS:
+            if mesh_cells(m, loc) is None:
+                continue
+            for k in range(m["nvar"][loc]):
+                targets.append(dict(mesh=j, loc=loc, k=k))
+    for k in range(len(ds["lis"])):
+        targets.append(dict(lis=k))
+    rng.shuffle(targets)
+    lis_t = [t for t in targets if "lis" in t]
+    chosen = lis_t + [t for t in targets if "lis" not in t][: max(2, 5 - len(lis_t))]
+    if ds["order"] == "lis-first" and finding_open("location-index-set-before-mesh-raises-KeyError"):
+        chosen = chosen[:2]  # the whole read fails: a couple of cases say so
+    for t in chosen:
+        j, loc, sel, name, l = target_info(ds, t)
+        m = ds["meshes"][j]
+        ncell = len(sel) if sel is not None else len(mesh_cells(m, loc))
+        whats = ["topo"]
+        if loc != "node" and root_of(ds, j)[("f" if loc == "face" else "e") + "si"] == 1 \
+                and finding_open("edge-face-cells-start-index-1-not-shifted") and rng.random() < 0.6:
+            whats = []
+        if loc != "node":
+            whats.append("bounds")
+        if loc == "face" and m.get("ff") is not None:
+            whats.append("cconn")
+        for what in whats:
+            via = "domain" if rng.random() < 0.12 else "file"
+            base = dict(ds=ds, target=t, what=what, via=via)
+            if what == "bounds":
+                base["coord"] = rng.choice(["x", "y"])
+            yield mk_read(base)
+            if via == "file" and rng.random() < 0.6:
+                ix = gen_index(rng, ncell)
+                if what == "bounds" and _reverses(ix, index_positions(ix, ncell), 2) and rng.random() < 0.75:
+                    # keep the known reversal of the bounds a small share of the bounds cases
+                    ix = dict(kind="list", v=sorted(set(index_positions(ix, ncell))))
+                q = dict(base, index=ix)
+                if what != "bounds" and rng.random() < 0.6:
+                    q["norm"] = rng.choice([0, 1])
+                yield mk_read(q)
+            elif what != "bounds" and rng.random() < 0.3:
+                yield mk_read(dict(base, norm=rng.choice([0, 1])))
+    # fields against each other
+    pairs = []
+    names = {}
+    for j, m in enumerate(ds["meshes"]):
+        for loc in LOCS:
+            if mesh_cells(m, loc) is not None:
+                names[(j, loc)] = [var_name(m, loc, k) for k in range(m["nvar"][loc])]
+    for (j, loc), ns in names.items():
+        if len(ns) == 2:
+            pairs.append(dict(kind="same-mesh-same-location", a=ns[0], b=ns[1], loc=loc))
+    keys = list(names)
+    for _ in range(2):
+        if len(keys) >= 2:
+            (j1, l1), (j2, l2) = rng.sample(keys, 2)
+            if j1 == j2:
+                pairs.append(dict(kind="same-mesh-other-location", a=names[(j1, l1)][0], b=names[(j2, l2)][0]))
+            else:
+                pairs.append(dict(kind="other-mesh", a=names[(j1, l1)][0], b=names[(j2, l2)][0]))
+    if any(m.get("padded_edge") for m in ds["meshes"]):
+        return  # the point cells of such a mesh raise (known finding, seen by C15.read / C15.point)
+    for pr in pairs[:2]:
+        yield mk_share(dict(ds=ds, via="file", **pr))
+
+
+# ---------------------------------------------------------------- expected values (oracle side, from the logical mesh)
+def want_rows(ds, p):
+    """(cell kind, rows the construct must hold before normalise) for a C15.read case; rows None = no such construct."""
+    t = p["target"]
+    j, loc, sel, name, l = target_info(ds, t)
+    m = ds["meshes"][j]
+    what = p["what"]
+    if what == "topo":
+        if loc == "node":
+            rows = spec_point_rows(m, point_src(m), m["n"])
+            cell = "point"
+        else:
+            cells = mesh_cells(m, loc)
+            w = max(len(r) for r in cells)
+            rows = [list(r) + [None] * (w - len(r)) for r in cells]
+            cell = loc
+    elif what == "cconn":
+        rows = spec_cconn_rows(m) if (loc == "face" and m.get("ff") is not None) else None
+        cell = "cc"
+    else:
+        cell = "bounds"
+        if loc == "node":
+            rows = None
+        else:
+            cells = mesh_cells(m, loc)
+            coords = m[p.get("coord") or "x"]
+            w = max(len(r) for r in cells)
+            rows = [[coords[v] for v in r] + [None] * (w - len(r)) for r in cells]
+    if rows is not None and sel is not None:
+        rows = [rows[i] for i in sel]
+    ncell = len(sel) if sel is not None else len(mesh_cells(m, loc))
+    pos = index_positions(p.get("index"), ncell)
+    if rows is not None and pos is not None:
+        rows = [rows[i] for i in pos]
+    return cell, rows, (pos if pos is not None else list(range(ncell)))
+
+
+def check_norm(cell, start_index, data, got):
+    """Is `got` the normalisation of `data`?  face/edge: exact.  point/cc: first column, kept ids as a
+    multiset, padding at the end."""
+    want = spec_norm(cell, start_index, data)
+    if len(got) != len(data) or any(len(r) != len(data[0]) for r in got):
+        return f"normalise changed the shape: {enc(got)}"
+    if cell in ("face", "edge"):
+        return None if got == want else f"expected rows={enc(want)} got rows={enc(got)}"
+    for k, (g, w) in enumerate(zip(got, want)):
+        if g[0] != w[0]:
+            return f"row {k}: first column {g[0]} is not the cell's own normalised id {w[0]}"
+        if sorted(v for v in g[1:] if v is not None) != w[1:]:
+            return f"row {k}: connected ids {g[1:]} are not the relabelled connected ids {w[1:]}"
+        t = [v is None for v in g]
+        if t != sorted(t):
+            return f"row {k}: padding is not at the end: {g}"
+    return None
+
+
 # ------------------------------------------------------------------ known findings
 def old_point_rows(m, src, si, unknown_shape):
     """What the unpatched PointTopology.__getitem__ returns (used only to keep a
@@ -865,6 +1588,8 @@ def old_point_rows(m, src, si, unknown_shape):
                 a, b = f[i], f[(i + 1) % len(f)]
                 nb[b].add(a)  # predecessor only
     else:
+        if any(len(r) < 2 for r in rows):
+            return "raised:TypeError"
         for a, b in rows:
             nb[a].add(b)
             nb[b].add(a)
@@ -887,6 +1612,8 @@ def _known(c):
         src = p.get("src") or point_src(m)
         w = "e" if src == "edges" else "f"
         rows = m["edges"] if src == "edges" else m["faces"]
+        if src == "edges" and m.get("padded_edge") and c.impl_out == "raised:TypeError":
+            return "point-cells-from-padded-edges-raise-TypeError"
         old = old_point_rows(m, src, m[w + "si"], p.get("unknown_shape"))
         if c.impl_out != old:
             return None  # not (only) the known behaviour: report it
@@ -899,6 +1626,13 @@ def _known(c):
         if src == "faces" and _boundary(rows):
             return "point-cells-from-faces-boundary-edge-neighbour-lost"
         return None
+    if c.stream == "C15.read":
+        return _known_read(c)
+    if c.stream == "C15.share":
+        ds = p["ds"]
+        if ds["lis"] and ds["order"] == "lis-first" and c.impl_out == "raised:KeyError":
+            return "location-index-set-before-mesh-raises-KeyError"
+        return None
     if c.stream == "C15.cells":
         m = p["mesh"]
         w = "f" if p["loc"] == "face" else "e"
@@ -907,4 +1641,52 @@ def _known(c):
             # exactly the stored one-based values, and nothing else wrong (the oracle lists every failure)
             if " | " not in (c.oracle_fail or ""):
                 return "edge-face-cells-start-index-1-not-shifted"
+    return None
+
+
+def _known_read(c):
+    p = c.payload
+    ds = p["ds"]
+    j, loc, sel, name, l = target_info(ds, p["target"])
+    m = ds["meshes"][j]
+    r = root_of(ds, j)
+    if ds["lis"] and ds["order"] == "lis-first" and c.impl_out == "raised:KeyError":
+        return "location-index-set-before-mesh-raises-KeyError"
+    if l is not None:
+        # unpatched: the data variable gets no UGRID construct at all (axis and data are right)
+        if c.impl_out == "none" and "domain axis" not in (c.oracle_fail or "") and "field data" not in (c.oracle_fail or ""):
+            return "location-index-set-ignored"
+        if p["via"] == "domain" and c.impl_out == "missing-field":
+            return "location-index-set-ignored"
+    cell, rows, pos = want_rows(ds, p)
+    if rows is None:
+        return None
+    fail = c.oracle_fail or ""
+    if p["what"] == "topo" and loc == "node" and point_src(m) == "edges" and r.get("padded_edge") and c.impl_out == "raised:TypeError":
+        return "point-cells-from-padded-edges-raise-TypeError"
+    if p["what"] == "topo" and loc in ("edge", "face"):
+        w = "f" if loc == "face" else "e"
+        if r[w + "si"] == 1:
+            one = "rows=" + enc([[None if v is None else v + 1 for v in row] for row in rows])
+            seen = c.impl_out if p.get("norm") is None else (c.extra or {}).get("before_norm")
+            if seen == one and fail.count(" | ") == 0:
+                return "edge-face-cells-start-index-1-not-shifted"
+    if p["what"] == "bounds":
+        cells = mesh_cells(m, loc)
+        w = max(len(x) for x in cells)
+        full = len(cells) * w
+        flips = 0
+        if sel is not None and full > 1 and sel[-1] < sel[0]:
+            flips += 1  # (patched reader) bounds[index_set]
+        n1 = len(sel) if sel is not None else len(cells)
+        if p.get("index") is not None and _reverses(p["index"], index_positions(p["index"], n1), n1 * w):
+            flips += 1
+        if flips % 2 == 1 and c.impl_out == "rows=" + enc([row[::-1] for row in rows]) and " | " not in fail:
+            return "ugrid-bounds-reversed-by-descending-subspace"
+    if p["what"] == "cconn" and m["shares"] is not None and r["ffsi"] == 1:
+        # first column zero-based, the touched cells still one-based
+        old = "rows=" + enc([[row[0]] + [None if v is None else v + 1 for v in row[1:]] for row in rows])
+        seen = c.impl_out if p.get("norm") is None else (c.extra or {}).get("before_norm")
+        if seen == old:
+            return "cell-connectivity-start-index-lost-for-second-mesh"
     return None
